@@ -753,6 +753,96 @@ impl WorkerState for W {
                     o.nontrivial = true;
                     o
                 }
+                Some(b"refused-then-registered") => {
+                    // an `add` that is refused because a type is not registered must not poison that type: after
+                    // the type has been registered, items that mention it are accepted and usable.  The refused
+                    // library holds nothing but the one item; marker types that nothing else in the harness uses.
+                    fn step<T: Clone + PartialEq + Send + Sync + 'static>(kind: u8, tname: &'static str) -> Result<(), String> {
+                        let mk = |name: &'static str| -> Result<roto::Item, String> {
+                            Ok(match kind {
+                                0 => Function::new(name, "", vec!["x"], |_x: Val<T>| -> i32 { 5 }, location!()).map_err(|e| format!("{e}"))?.into(),
+                                1 => Function::new(name, "", vec!["x"], |x: Option<Val<T>>| -> Option<Val<T>> { x }, location!()).map_err(|e| format!("{e}"))?.into(),
+                                _ => {
+                                    let mut im = Impl::new::<Val<T>>(location!());
+                                    im.add(Function::new(name, "", vec![], || -> i32 { 5 }, location!()).map_err(|e| format!("{e}"))?);
+                                    im.into()
+                                }
+                            })
+                        };
+                        let mut rt = Runtime::new();
+                        if rt.add(mk("early")?).is_ok() {
+                            return Err(format!("kind {kind}: an item mentioning the unregistered type {tname} was accepted"));
+                        }
+                        rt.add(Type::clone::<Val<T>>(tname, "", location!()).map_err(|e| format!("{e}"))?).map_err(|e| format!("kind {kind}: registering {tname} after a refused add failed: {e}"))?;
+                        rt.add(mk("late")?).map_err(|e| format!("kind {kind}: {tname} is registered now, but an item mentioning it is still refused: {e}"))?;
+                        let script = match kind {
+                            0 => format!("fn t(x: {tname}) -> i32 {{ late(x) }}"),
+                            1 => format!("fn t(x: {tname}?) -> {tname}? {{ late(x) }}"),
+                            _ => format!("fn t() -> i32 {{ {tname}.late() }}"),
+                        };
+                        host::compile(&rt, &script).map(|_| ()).map_err(|e| format!("kind {kind}: the script that uses the item does not compile:\n{e}\n{script}"))
+                    }
+                    for (kind, r) in [(0u8, step::<Mk<40>>(0, "Early40")), (1, step::<Mk<41>>(1, "Early41")), (2, step::<Mk<42>>(2, "Early42"))] {
+                        if let Err(e) = r {
+                            return Outcome::fail(format!("refused-valid-library:after-a-refused-add:{kind}"), e);
+                        }
+                    }
+                    let mut o = Outcome::pass();
+                    o.nontrivial = true;
+                    o.hash = fnv(b"refused-then-registered");
+                    o
+                }
+                Some(b"use-through-alias-order") => {
+                    // `use a::b; use b::f;`: whatever a use that starts with another use's alias means, it means
+                    // the same in either item order, as separate items and as one item with two paths
+                    let build = |swap: bool, one_item: bool| -> Result<Runtime<NoCtx>, String> {
+                        let mut b = Module::new("b", "", location!()).map_err(|e| format!("{e}"))?;
+                        b.add(Function::new("f", "", vec![], || -> i32 { 20 }, location!()).map_err(|e| format!("{e}"))?);
+                        let mut a = Module::new("a", "", location!()).map_err(|e| format!("{e}"))?;
+                        a.add(b);
+                        let p1: Vec<String> = vec!["a".into(), "b".into()];
+                        let p2: Vec<String> = vec!["b".into(), "f".into()];
+                        let (x, y) = if swap { (p2, p1) } else { (p1, p2) };
+                        let mut lib = Library::new();
+                        if swap {
+                            // the module comes last as well
+                            if one_item {
+                                lib.add(Use::new(vec![x, y], location!()).into());
+                            } else {
+                                lib.add(Use::new(vec![x], location!()).into());
+                                lib.add(Use::new(vec![y], location!()).into());
+                            }
+                            lib.add(a.into());
+                        } else {
+                            lib.add(a.into());
+                            if one_item {
+                                lib.add(Use::new(vec![x, y], location!()).into());
+                            } else {
+                                lib.add(Use::new(vec![x], location!()).into());
+                                lib.add(Use::new(vec![y], location!()).into());
+                            }
+                        }
+                        Runtime::from_lib(lib).map_err(|e| format!("{e}"))
+                    };
+                    for one_item in [false, true] {
+                        let r1 = build(false, one_item);
+                        let r2 = build(true, one_item);
+                        if r1.is_ok() != r2.is_ok() {
+                            return Outcome::fail("order-dependent-outcome:use-through-alias", format!("`use a::b; use b::f;` (one item: {one_item}): in this order {:?}, in the other order {:?}", r1.as_ref().map(|_| "accepted").map_err(|e| e.clone()), r2.as_ref().map(|_| "accepted").map_err(|e| e.clone())));
+                        }
+                        if let (Ok(rt1), Ok(rt2)) = (&r1, &r2) {
+                            let c1 = host::compile(rt1, "fn t() -> i32 { f() }").is_ok();
+                            let c2 = host::compile(rt2, "fn t() -> i32 { f() }").is_ok();
+                            if c1 != c2 {
+                                return Outcome::fail("order-dependent-outcome:use-through-alias", format!("`use a::b; use b::f;` registered in both orders, but `f()` compiles only in one (first order: {c1}, other order: {c2})"));
+                            }
+                        }
+                    }
+                    let mut o = Outcome::pass();
+                    o.nontrivial = true;
+                    o.hash = fnv(b"use-through-alias-order");
+                    o
+                }
                 Some(b"type-named-like-a-primitive") => {
                     // at the root the name is taken; in a module it is free and the type is reachable there
                     for n in ["u8", "Prefix", "List", "String", "bool"] {
@@ -1096,7 +1186,7 @@ impl Prop for C18P {
     }
     fn fixed_cases(&self, _tier: Tier) -> Vec<Case> {
         // the macro route cannot be generated at run time: fixed scenarios
-        vec![vec![b"#!scenario".to_vec(), b"macro-use-groups".to_vec()], vec![b"#!scenario".to_vec(), b"use-nested-path".to_vec()], vec![b"#!scenario".to_vec(), b"use-missing-item".to_vec()]]
+        vec![vec![b"#!scenario".to_vec(), b"macro-use-groups".to_vec()], vec![b"#!scenario".to_vec(), b"use-nested-path".to_vec()], vec![b"#!scenario".to_vec(), b"use-missing-item".to_vec()], vec![b"#!scenario".to_vec(), b"refused-then-registered".to_vec()], vec![b"#!scenario".to_vec(), b"use-through-alias-order".to_vec()]]
     }
     fn worker(&self, excl: &[String]) -> Box<dyn WorkerState> {
         Box::new(W { excl: excl.to_vec() })
